@@ -1,77 +1,21 @@
 import OnetVerif.Model.Util
-/-! Model for property C05: the per-instance message queue, its single reader goroutine and the
-1-buffered wake-up channel (`treenode.go`: `ProcessProtocolMsg` 498-510, `notifyDispatch` 512-520,
-`dispatchMsgReader` 522-553, `closeDispatch` 358-371).  One `Act` per critical section of the
-source: `accept m` is the whole of `ProcessProtocolMsg` (one mutex region), `reader` one step of the
-reader goroutine, `close` is `closeDispatch`.  Handlers are opaque: entering and leaving one are the
-reader's `top → handling m` and `handling m → top` steps.  Core-only. -/
+import OnetVerif.Model.C05Inst
+import OnetVerif.Model.C05Conn
+/-! Model for property C05.  The instance (queue, wake-up token, single reader) is `Model/C05Inst.lean`,
+the way from a connection to the instance's queue (receive loop, dispatchers, overlay hand-over,
+`transmitMux`) is `Model/C05Conn.lean`; this file is the line-protocol front end.  Core-only. -/
 namespace C05
-
-inductive RPc where
-  | top                 -- about to lock and look at the queue
-  | handling (m : Nat)  -- inside dispatchMsgToProtocol for m
-  | waiting             -- blocked on msgDispatchQueueWait
-  | stopped
-  deriving DecidableEq, Repr
-
-structure St where
-  queue    : List Nat := []
-  token    : Bool := false
-  closing  : Bool := false
-  pc       : RPc := .top
-  accepted : List Nat := []   -- ghost: acceptance order
-  started  : List Nat := []   -- ghost: handler-enter order
-  finished : List Nat := []   -- ghost: handler-exit order
-  deriving Repr
-
-inductive Act where
-  | accept (m : Nat)   -- ProcessProtocolMsg under the mutex (atomic)
-  | reader             -- one step of dispatchMsgReader
-  | close              -- closeDispatch
-  deriving Repr
-
-def step (s : St) : Act → Option St
-  | .accept m =>
-      if s.closing then some s
-      else some { s with queue := s.queue ++ [m], token := true, accepted := s.accepted ++ [m] }
-  | .close => some { s with closing := true, token := true }  -- closed channel is always readable
-  | .reader =>
-      match s.pc with
-      | .top =>
-          if s.closing then some { s with pc := .stopped }
-          else match s.queue with
-            | m :: q => some { s with queue := q, pc := .handling m, started := s.started ++ [m] }
-            | [] => some { s with pc := .waiting }
-      | .handling m => some { s with pc := .top, finished := s.finished ++ [m] }
-      | .waiting => if s.token then some { s with pc := .top, token := s.closing } else none
-      | .stopped => none
-
-def run (s : St) : List Act → Option St
-  | [] => some s
-  | a :: as => match step s a with
-      | some s' => run s' as
-      | none => run s as   -- a blocked thread simply does not move
-
-/-- several instances on one server: the overlay hands a message over with `accept` on the
-addressed instance only (`overlay.go:216-219`, `pi.ProcessProtocolMsg`), every instance has its own
-reader goroutine -/
-abbrev Server := Nat → St
-
-inductive SAct where
-  | at (i : Nat) (a : Act)
-
-def sstep (s : Server) : SAct → Option Server
-  | .at i a => (step (s i) a).map fun t => fun j => if j = i then t else s j
 
 namespace Drv
 
 structure State where
   srv : List (Nat × St) := []
+  conn : Conn.St := {}
 
 def init : State := {}
 
 def get (s : State) (i : Nat) : St := (s.srv.lookup i).getD {}
-def set (s : State) (i : Nat) (t : St) : State := { srv := (i, t) :: s.srv.filter (fun p => p.1 != i) }
+def set (s : State) (i : Nat) (t : St) : State := { s with srv := (i, t) :: s.srv.filter (fun p => p.1 != i) }
 
 /-- let the reader goroutine of an instance run its internal steps (wake up from waiting, look at
 the queue) until it enters a handler or blocks; fuel bounds the loop (two steps suffice) -/
@@ -92,10 +36,76 @@ def showPc (t : St) : String :=
   | .waiting => "idle"
   | .top => "idle"
 
+/-- the reader of instance `i` of the connection model runs until it is inside a handler or blocks -/
+def csettle (x : Conn.St) (i : Nat) : Conn.St :=
+  { x with inst := Conn.upd x.inst i (settle 4 (x.inst i)) }
+
+/-- connection `p`'s goroutine takes the envelope at the head of its wire and brings it to its
+processor (the harness constructors return at once) -/
+def cdeliver (x : Conn.St) (p : Nat) : Conn.St :=
+  Conn.run x [.loop p, .loop p, .ctorRet p]
+
+def cstates (x : Conn.St) : String :=
+  "|".intercalate ((List.range 3).map fun i => showPc (x.inst i))
+
+/-- the connection class: `cstart <tcp>`; `csend <peer> <inst> <m>` (peer's instance sends m to the
+instance over its connection; answer: what the instance is doing once the server has accepted it);
+`cburst <peer> <m0> <i,i,…>` (messages m0, m0+1, … written back to back for the listed instances;
+answer: what the three instances are doing); `cexit <inst>`; `csvc <peer> <proc> <m>` (a service
+message whose processor blocks) and `csvcret <proc>` (answer: processors running); `cstate`. -/
+def cstep (s : State) (toks : List String) : Option (State × String) :=
+  match toks with
+  | ["cstart", _] => some ({ s with conn := {} }, "ok")
+  | ["csend", p, i, m] =>
+    match p.toNat?, i.toNat?, m.toNat? with
+    | some p, some i, some m =>
+      let x := cdeliver (Conn.run s.conn [.send p (.proto i m)]) p
+      let x := csettle x i
+      some ({ s with conn := x }, showPc (x.inst i))
+    | _, _, _ => some (s, "bad-op")
+  | ["cburst", p, m0, is] =>
+    match p.toNat?, m0.toNat?, Util.natList is with
+    | some p, some m0, some is =>
+      let sends : List Conn.Act := (List.range is.length).map fun k => .send p (.proto (is.getD k 0) (m0 + k))
+      let x := Conn.run s.conn sends
+      let x := is.foldl (fun acc _ => cdeliver acc p) x
+      let x := (List.range 3).foldl csettle x
+      some ({ s with conn := x }, cstates x)
+    | _, _, _ => some (s, "bad-op")
+  | ["cexit", i] =>
+    match i.toNat? with
+    | some i =>
+      match (s.conn.inst i).pc with
+      | .handling _ =>
+        let x := csettle (Conn.run s.conn [.reader i]) i
+        some ({ s with conn := x }, showPc (x.inst i))
+      | _ => some (s, "no-handler")
+    | none => some (s, "bad-op")
+  | ["csvc", p, q, m] =>
+    match p.toNat?, q.toNat?, m.toNat? with
+    | some p, some q, some m =>
+      let x := Conn.run s.conn [.send p (.svc q m), .loop p, .loop p]
+      some ({ s with conn := x }, s!"running={x.running.length}")
+    | _, _, _ => some (s, "bad-op")
+  | ["csvcret", q] =>
+    match q.toNat? with
+    | some q =>
+      match (List.range s.conn.running.length).find? (fun k => (s.conn.running.getD k (0, 0)).1 == q) with
+      | some k =>
+        let x := Conn.run s.conn [.svcRet k]
+        some ({ s with conn := x }, s!"running={x.running.length}")
+      | none => some (s, "no-processor")
+    | none => some (s, "bad-op")
+  | ["cstate"] => some (s, cstates s.conn)
+  | _ => none
+
 /-- `accept <inst> <m>`: hand message m over; `exit <inst>`: the running handler returns; `close
 <inst>`.  After each, the reader runs until it is inside a handler or has nothing to do; the reply
 is what the instance is doing then: `in:<m>`, `idle` or `stopped`. -/
 def step (s : State) (toks : List String) : State × String :=
+  match cstep s toks with
+  | some r => r
+  | none =>
   match toks with
   | ["accept", i, m] =>
     match i.toNat?, m.toNat? with
